@@ -100,8 +100,8 @@ func (e *VerifEnv) addEntry(name string, typeflag byte, size int64, deleted bool
 	}
 	hdr := &tar.Header{Typeflag: typeflag, Name: name, Linkname: linkname, Size: size, Mode: 0o644, Format: tar.FormatPAX, PAXRecords: paxMap}
 	var data []byte
-	if typeflag == tar.TypeReg && size > 0 {
-		data = make([]byte, size)
+	if typeflag == tar.TypeReg && size > 0 && size <= 4096 {
+		data = make([]byte, size) // (larger contents are not tracked byte by byte: only their extent matters)
 	}
 	if typeflag != tar.TypeReg {
 		size = 0
